@@ -18,6 +18,9 @@ type convTerminal struct {
 	Reqs  []reqJSON `json:"requests"`
 	Group []int     `json:"write_groups"` // number of frames per write (coalescing); a transfer's last packet always ends a write
 	Gap   []int     `json:"gap_us"`
+	// Quiet: after its last request the terminal sends nothing until it has received every reply it is owed
+	// (only then the closing heartbeat): a reply may not wait for later traffic
+	Quiet bool `json:"waits_for_all_replies_before_the_closing_heartbeat,omitempty"`
 }
 
 // reqJSON is the serialisable part of a request (the checks are re-derived from it).
@@ -43,6 +46,7 @@ type c06Case struct {
 	Terminals []convTerminal `json:"terminals"`
 	Handlers  string         `json:"handlers"`
 	HoldUs    int            `json:"read_hold_us"`
+	WriteHold int            `json:"write_hold_us,omitempty"` // the write callback sleeps: the writer lags behind the reader, messages queue up between them
 	// Prelude: bytes an earlier connection of another terminal sent before it hung up (may end inside a frame or inside a
 	// transfer); the conversations start after it has gone
 	Prelude kit.Hex `json:"earlier_connection_sent,omitempty"`
@@ -69,7 +73,29 @@ func genConv(t *rapid.T, id identity, maxReqs int, allowTransfer bool, label str
 		}
 		c.Reqs = append(c.Reqs, toJSON(r, note))
 	}
+	burstTail := rapid.IntRange(0, 4).Draw(t, label+"_burst_tail") == 0
+	if burstTail {
+		// the conversation ends with a heartbeat followed, in the same write, by terminal responses (which get no reply):
+		// the heartbeat's reply must still reach the terminal although nothing answerable follows it
+		s0 := serial
+		serial++
+		hb := request{Frames: [][]byte{frame(id, 0x0002, s0, nil)}, MsgID: 0x0002, Serials: []uint16{s0}, Kind: "reply"}
+		c.Reqs = append(c.Reqs, toJSON(hb, ""))
+		for k, n := 0, rapid.IntRange(1, 4).Draw(t, label+"_tail_n"); k < n; k++ {
+			m := rapid.SampledFrom(responseIDs).Draw(t, label+"_tail_id")
+			b, _ := validBody(t, m, id, label+"_tail")
+			sk := serial
+			serial++
+			c.Reqs = append(c.Reqs, toJSON(request{Frames: [][]byte{frame(id, m, sk, b)}, MsgID: m, Serials: []uint16{sk}, Kind: "noreply", FullBody: b}, ""))
+		}
+	}
 	mode := rapid.IntRange(0, 2).Draw(t, label+"_coalesce")
+	if burstTail {
+		mode = 2
+		c.Quiet = true
+	} else {
+		c.Quiet = rapid.IntRange(0, 3).Draw(t, label+"_quiet") == 0
+	}
 	for range c.Reqs {
 		switch mode {
 		case 0:
@@ -98,6 +124,9 @@ func genIdentity(t *rapid.T, i int, label string) identity {
 
 func genC06(t *rapid.T) c06Case {
 	c := c06Case{Handlers: rapid.SampledFrom([]string{"", "", "parse_all"}).Draw(t, "handlers"), HoldUs: rapid.SampledFrom([]int{0, 1000, 1000}).Draw(t, "hold")}
+	if c.WriteHold = rapid.SampledFrom([]int{0, 0, 500, 3000}).Draw(t, "write_hold"); c.WriteHold > 0 {
+		c.HoldUs = 0
+	}
 	n := rapid.IntRange(1, 4).Draw(t, "terminals")
 	if rapid.IntRange(0, 3).Draw(t, "prelude") == 0 {
 		// another terminal said hello, began a transfer and hung up in the middle of its second packet
@@ -153,6 +182,9 @@ func convSteps(c convTerminal, closeAtEnd bool) ([]Step, int) {
 		}
 	}
 	flush()
+	if c.Quiet {
+		steps = append(steps, Step{Op: "wait_frames", N: expect, DeadlineMs: 2500})
+	}
 	steps = append(steps, Step{Op: "write", Hex: frame(c.ID, 0x0002, sentinelSerial, nil)})
 	expect++
 	steps = append(steps, Step{Op: "wait_frames", N: expect, DeadlineMs: 8000})
@@ -334,7 +366,7 @@ func childVerdict(h History, res *kit.Result) bool {
 
 func checkC06(c c06Case, _ *kit.Collector) kit.Result {
 	res := kit.Result{}
-	sc := Scenario{Handlers: c.Handlers, ReadHoldUs: c.HoldUs}
+	sc := Scenario{Handlers: c.Handlers, ReadHoldUs: c.HoldUs, WriteHoldUs: c.WriteHold}
 	for i, t := range c.Terminals {
 		steps, _ := convSteps(t, true)
 		if len(c.Prelude) > 0 {
